@@ -132,6 +132,11 @@ fn generators_receive(expect: &Value, key: u64) -> Option<Value> {
     let res = crate::fam_driver::run_limited(std::process::Command::new(crate::fam_driver::slicec_bin()).args(&argv).current_dir(&dir), std::time::Duration::from_secs(20));
     let read = |name: &str| std::fs::read(dir.join(format!("{name}.stdin"))).ok();
     let (one, two) = (read("gen1"), read("gen2"));
+    // the same first generator alone: what it reads does not depend on which other generators were listed
+    let _ = std::fs::remove_file(dir.join("gen1.stdin"));
+    let alone_argv: Vec<String> = vec!["x.slice".into(), "--diagnostic-format".into(), "json".into(), "-G".into(), format!("{}{}", dir.join("gen1").display(), written(&pairs))];
+    let _ = crate::fam_driver::run_limited(std::process::Command::new(crate::fam_driver::slicec_bin()).args(&alone_argv).current_dir(&dir), std::time::Duration::from_secs(20));
+    let alone = read("gen1");
     let fail = (|| {
         let (Some(one), Some(two)) = (one, two) else {
             return Some(json!({"kind": "mismatch", "what": "a generator listed after one that cannot be started was not run (or got nothing)",
@@ -141,6 +146,9 @@ fn generators_receive(expect: &Value, key: u64) -> Option<Value> {
         if !one.ends_with(&own1) || !two.ends_with(&own2) {
             return Some(mismatch("the pairs a generator reads behind the request (exactly those written for it, in order)", json!({"gen1": pairs, "gen2": other}),
                                  json!({"gen1_tail": one[one.len().saturating_sub(own1.len() + 8)..].to_vec(), "gen2_tail": two[two.len().saturating_sub(own2.len() + 8)..].to_vec()})));
+        }
+        if alone.as_ref() != Some(&one) {
+            return Some(json!({"kind": "mismatch", "what": "what a generator reads depends on the other generators of the command line", "with_others": one.len(), "alone": alone.map(|a| a.len())}));
         }
         if one[..one.len() - own1.len()] != two[..two.len() - own2.len()] || one.len() == own1.len() {
             return Some(json!({"kind": "mismatch", "what": "the two generators did not receive one identical request in front of their arguments", "lengths": [one.len() - own1.len(), two.len() - own2.len()]}));
